@@ -58,6 +58,8 @@ def eval_cond(test: ast.AST, polarity: bool, cur: FrozenSet[str], recv: str = "s
             vals = _const_set(r)
             if vals is None and isinstance(r, ast.Name) and consts and r.id in consts:
                 vals = consts[r.id]
+            if vals is None and isinstance(r, ast.Attribute) and consts and r.attr in consts:
+                vals = consts[r.attr]
             if vals is not None:
                 if isinstance(op, (ast.Eq, ast.In, ast.Is)):
                     sat = cur & frozenset(vals)
@@ -69,9 +71,31 @@ def eval_cond(test: ast.AST, polarity: bool, cur: FrozenSet[str], recv: str = "s
     return cur
 
 
+def module_status_consts(f: FuncInfo) -> Dict[str, Set[str]]:
+    """Module-level (and class-level) constants that are tuples / sets / frozensets of status strings, so that
+    ``self.status in _TERMINAL`` is understood like the literal tuple."""
+    out: Dict[str, Set[str]] = {}
+    srcs = dict(f.module.constants)
+    sc = f.self_class
+    if sc is not None:
+        for c in sc.mro():
+            srcs.update(c.class_attrs)
+            srcs.update(c.module.constants)
+    for name, val in srcs.items():
+        v = val
+        if isinstance(v, ast.Call) and isinstance(v.func, ast.Name) and v.func.id in ("frozenset", "set", "tuple") and v.args:
+            v = v.args[0]
+        vals = _const_set(v)
+        if vals and vals <= set(DOMAIN):
+            out[name] = vals
+    return out
+
+
 def status_flow(f: FuncInfo, entry: FrozenSet[str] = DOMAIN, recv: str = "self",
                 call_effect: Optional[Callable[[ast.Call], Set[str]]] = None,
                 consts: Optional[Dict[str, Set[str]]] = None) -> Dict[int, FrozenSet[str]]:
+    if consts is None:
+        consts = module_status_consts(f)
     g = cfg_of(f.node)
     live = g.live_nodes()
     IN: Dict[int, FrozenSet[str]] = {n: frozenset() for n in live}
